@@ -213,11 +213,15 @@ def execute_plan(plan: dict, kdf_limit: int = 300, keep_events: bool = False) ->
         which = op.get("cache", "shared")
         if which == "shared":
             the_cache = cache
+        elif which == "none":
+            the_cache = None  # the caller passes no cache at all (the documented default)
         elif which == "fresh":
             the_cache = dpapi_ng.KeyCache()
         else:  # another named cache shared by the operations that name it (e.g. a second process-wide cache that starts empty)
             the_cache = named_caches.setdefault(which, dpapi_ng.KeyCache())
         kw = api_kwargs(op, the_cache)
+        if op["op"] == "load_key":
+            return ot, (lambda fl: ("load_key", (rks[op["rk"]],), {"cache": the_cache}))
         if op["op"] == "protect":
             pt = data_bytes(op.get("data", 16), i + 1000 * seed) if not op.get("same_data") else data_bytes(op.get("data", 16), 7)
             if op.get("data_from_op") is not None:
@@ -272,7 +276,7 @@ def execute_plan(plan: dict, kdf_limit: int = 300, keep_events: bool = False) ->
             while i < len(ops):
                 op = ops[i]
                 kind = op["op"]
-                if kind == "load_key":
+                if kind == "load_key" and op.get("fl") != "thread":
                     ot = OpTrace(i, op)
                     ot.invoke_seq = world.seq
                     offline.load_into(cache, rks[op["rk"]])
@@ -322,6 +326,28 @@ def execute_plan(plan: dict, kdf_limit: int = 300, keep_events: bool = False) ->
                     tr.ops.append(ot)
                     i += 1
                     continue
+                if kind == "dc_restart":
+                    # the key service restarts and registers another dynamic port with the endpoint mapper (same host, same keys)
+                    ot = OpTrace(i, op)
+                    old_port = dc.gkdi_port
+                    peer = world.routes.pop((offline.DC, old_port), None)
+                    dc.gkdi_port = int(op["port"])
+                    if peer is not None:
+                        world.add_route(offline.DC, dc.gkdi_port, peer)
+                    world.stats["dc_restart"] += 1
+                    world.log("op.dc_restart", old_port, dc.gkdi_port)
+                    ot.outcome = drive.Outcome("ok", None)
+                    tr.ops.append(ot)
+                    i += 1
+                    continue
+                if kind == "entropy_fault":
+                    ot = OpTrace(i, op)
+                    world.entropy.fail_sources = set(op.get("sources", ()))
+                    world.stats["entropy_fault"] += int(bool(op.get("sources")))
+                    ot.outcome = drive.Outcome("ok", None)
+                    tr.ops.append(ot)
+                    i += 1
+                    continue
                 if kind == "app_random_seed":
                     # the application (a test runner, a job scheduler) re-seeds Python's global PRNG between two calls; the library's
                     # key material must not depend on that generator
@@ -346,7 +372,7 @@ def execute_plan(plan: dict, kdf_limit: int = 300, keep_events: bool = False) ->
                 group = [i]
                 if op.get("fl") in ("async", "thread") and op.get("group") is not None:
                     j = i + 1
-                    while j < len(ops) and ops[j].get("op") in ("protect", "unprotect") and ops[j].get("fl") == op["fl"] and ops[j].get("group") == op["group"]:
+                    while j < len(ops) and ops[j].get("op") in ("protect", "unprotect", "load_key") and ops[j].get("fl") == op["fl"] and ops[j].get("group") == op["group"]:
                         group.append(j)
                         j += 1
                 prepared = []
@@ -392,7 +418,9 @@ def execute_plan(plan: dict, kdf_limit: int = 300, keep_events: bool = False) ->
                                 ot.clock_ft = world.clock.filetime()
                                 ot.invoke_seq = world.seq
                                 world.log("op.invoke", ot.idx, name)
-                                if name == "unprotect" and args[0] is None:
+                                if name == "load_key":
+                                    ot.outcome = drive.classify(lambda: offline.load_into(kw["cache"], args[0]))
+                                elif name == "unprotect" and args[0] is None:
                                     ot.outcome = drive.Outcome("raise", exc=ValueError("source blob missing"))
                                 else:
                                     ot.outcome = drive.classify(lambda: offline.call_api(world, "sync", name, *args, **kw))
